@@ -111,7 +111,7 @@ def lemma_vacuity_probes(woven, info):
 
 
 WRAPPER_SHARED = ['00_error.vspec', '02_types.vspec', '09_resolvers.vspec']
-WRAPPER_CFG = ['--cfg', 'feature="use-curve25519"', '--cfg', 'feature="use-chacha20poly1305"', '--cfg', 'feature="use-aes-gcm"',
+WRAPPER_CFG = ['--cfg', 'feature="use-curve25519"', '--cfg', 'feature="use-chacha20poly1305"', '--cfg', 'feature="use-xchacha20poly1305"', '--cfg', 'feature="use-aes-gcm"',
                '--cfg', 'feature="use-sha2"', '--cfg', 'feature="use-blake2"']
 
 
